@@ -196,16 +196,21 @@ func oneFault(ctx context.Context, rep *mon.Reporter, spec *gspec.GraphSpec, r c
 	if fref.Err != "nodefail" {
 		return // with the fault the reference never reaches the victim (cannot happen for single victims)
 	}
-	ctl := gspec.NewCtl("r")
-	ctl.Faults = faults
-	out, wres, dump := gspec.CallGuarded(gspec.WithCtl(ctx, ctl), r, para, in, 0, -1)
-	rep.AddEvaluations(1)
-	rep.Count("fault_runs", 1)
 	var names []string
 	for _, v := range victims {
 		names = append(names, v.Path+":"+kindName(faults[v.Node]))
 	}
-	wit := map[string]any{"spec": spec, "input": in, "faults": names, "paradigm": para}
+	ctl := gspec.NewCtl("r")
+	ctl.Faults = faults
+	// in a third of the runs the injected errors also have io.EOF in their Unwrap chain: still failures
+	ctl.EOFInChain = mon.HashStr(fmt.Sprint(names, para, gspec.Canon(in)))%3 == 0
+	out, wres, dump := gspec.CallGuarded(gspec.WithCtl(ctx, ctl), r, para, in, 0, -1)
+	rep.AddEvaluations(1)
+	rep.Count("fault_runs", 1)
+	if ctl.EOFInChain {
+		rep.Count("fault_runs_with_io_EOF_in_the_error_chain", 1)
+	}
+	wit := map[string]any{"spec": spec, "input": in, "faults": names, "paradigm": para, "io_EOF_in_chain": ctl.EOFInChain}
 	kindSig := kindName(faults[victims[0].Node])
 	if len(victims) > 1 {
 		kindSig = "pair"
